@@ -13,7 +13,7 @@ from ..persist import IDENTITY, PersistEngine
 from ..report import RuleResult
 from ..tables import WriterTables
 from ..textile import FormatDoc
-from ._c03_engine import RobustPersistEngine, RobustWriterTables, gateway_args, has_gateway_kw, route_values
+from ._c03_engine import RobustPersistEngine, RobustWriterTables, fuse_generator_loops, gateway_args, has_gateway_kw, route_values
 
 
 def families(ctx):
@@ -1468,14 +1468,14 @@ def rule_shadow(ctx) -> RuleResult:
     return res
 
 
-def _touches_attrs(n) -> bool:
+def _touches_attrs_node(n, managers=frozenset()) -> bool:
     """The CFG node creates / replaces / removes an HDF5 attribute: <h>.attrs.create(..), <h>.attrs[k] = v, del <h>.attrs[k], <h>.attrs.pop(k)."""
     a = n.ast
     if a is None or isinstance(a, list) or n.kind == "with":
         return False
 
     def is_attrs(e):
-        return isinstance(e, ast.Attribute) and e.attr == "attrs"
+        return (isinstance(e, ast.Attribute) and e.attr == "attrs") or (isinstance(e, ast.Name) and e.id in managers)
 
     for x in ast.walk(a):
         if isinstance(x, ast.Call) and isinstance(x.func, ast.Attribute) and is_attrs(x.func.value) \
@@ -1495,10 +1495,14 @@ def _reset_scalar_attributes(ctx, res, t):
     if fn0 is None or len(fn0.params) < 3:
         raise AnalysisError(f"anchor H5Writer.{t.fallback} not found")
     ent_p = fn0.params[2]
-    v = ctx.view(fn0)
+    v = ctx.view(fuse_generator_loops(ctx.p, fn0))  # a producer generator (reads, skips) fused back into the consumer's loop
     node = _with_expanded_tests(v.node)
     defs = single_assignments(node)
     g = CFG(node)
+    managers = {nm for nm, val in defs.items() if isinstance(val, ast.Attribute) and val.attr == "attrs"}  # attrs = <node>.attrs
+
+    def _touches_attrs(n):
+        return _touches_attrs_node(n, managers)
 
     def reads_entity(e):
         return isinstance(e, ast.Call) and isinstance(e.func, ast.Name) and e.func.id == "getattr" and len(e.args) >= 2 \
@@ -1535,7 +1539,8 @@ def _reset_scalar_attributes(ctx, res, t):
         while isinstance(e, ast.UnaryOp) and isinstance(e.op, ast.Not):
             e, neg = e.operand, not neg
         if not (isinstance(e, ast.Compare) and len(e.ops) == 1 and isinstance(e.ops[0], (ast.In, ast.NotIn))
-                and isinstance(e.comparators[0], ast.Attribute) and e.comparators[0].attr == "attrs"):
+                and ((isinstance(e.comparators[0], ast.Attribute) and e.comparators[0].attr == "attrs")
+                     or (isinstance(e.comparators[0], ast.Name) and e.comparators[0].id in managers))):
             return False
         present = "true" if (isinstance(e.ops[0], ast.In) != neg) else "false"
         nxt = [m for m, lab in n.succ if lab == present]
